@@ -28,6 +28,18 @@ def _impl(n, pk, tr, ri, de):
             mk = [lambda v: np.array(v, dtype=int), lambda v: np.array(v, dtype=np.int32), lambda v: [int(x) for x in v]][(n + len(pk) + len(tr)) % 3]
             # the recording itself (only its length matters): float64 / int16 / float32 array or a python list of ints
             sig = [np.zeros(n), np.zeros(n, dtype=np.int16), np.zeros(n, dtype=np.float32), [0] * n][(n + 3 * len(pk) + len(tr)) % 4]
+            h = (2 * n + len(pk) + 5 * len(tr)) % 5
+            if h == 0:
+                # a call on a recording of the same length that RAISES half-way came just before (a cyclepoint beyond the recording): whatever work
+                # arrays it had started to fill, nothing of it may show up in this call
+                try:
+                    extrema_interpolated_phase(np.zeros(n), np.array([1, n // 2]), np.array([n // 3, n + 3]), np.array([2]), np.array([n // 4]))
+                except Exception:
+                    pass
+            if h == 1 and len(pk) + len(tr) >= 3:
+                # the same cyclepoints handed over OUT OF temporal order (e.g. built from the columns of a cycle table): anchors are assigned by index
+                pk, tr = list(pk)[::-1], list(tr[1:]) + list(tr[:1])
+                ri = None if ri is None else list(ri)[::-1]; de = None if de is None else list(de[1:]) + list(de[:1])
             pha = extrema_interpolated_phase(sig, mk(pk), mk(tr), None if ri is None else mk(ri), None if de is None else mk(de))
         return ['ok', [float(x) / (math.pi / 2) for x in pha]]
     except Exception as e:
